@@ -438,36 +438,56 @@ func (cf *confEnv) sigFormMutants(sp *spend) {
 		}
 	}
 	// signed by the same key for another / no chain parameter
-	fields := []interface{}{base.Inputs, base.Outputs, base.TokenID, base.RKey, base.AddKeys, base.Fee, base.Extra}
 	key := cf.keyOf(sp.Sender)
 	if key == nil {
 		return
 	}
-	for _, va := range chainForms(cf.c.Rng, fields) {
+	// The list the account signature covers is not exported; the harness rebuilds it and the
+	// self check (a hand-made signature for this chain must be accepted) tells whether it did.
+	// Second candidate: the list extended by the confidential half of the outputs.
+	prefix := []interface{}{base.Inputs, base.Outputs, base.TokenID, base.RKey, base.AddKeys, base.Fee, base.Extra}
+	candidates := [][]interface{}{prefix, append(append([]interface{}{}, prefix...), base.RCTSig.EcdhInfo, base.RCTSig.OutPk, base.RCTSig.P.Bulletproofs)}
+	judgeForm := func(va chainForm) (uverdict, []byte, *big.Int) {
 		sig, err := crypto.Sign(va.Hash, key.Key)
 		if err != nil {
-			continue
+			return uverdict{Stage: "decode"}, nil, nil
 		}
 		cp, _ := decodeUtx(sp.Wire)
 		cp.Sigs.R, cp.Sigs.S, cp.Sigs.V = new(big.Int).SetBytes(sig[:32]), new(big.Int).SetBytes(sig[32:64]), va.V(int64(sig[64]))
 		wire, err := ser.EncodeToBytes(cp)
 		if err != nil {
-			continue
+			return uverdict{Stage: "decode"}, nil, nil
 		}
-		v := cf.judgeUtx(sp, wire)
-		if va.self() {
-			// a second valid signature by the key holder for this chain must be accepted
-			if v.Stage != "accepted" && v.Stage != "identity" {
-				cf.c.Inconclusive("harness signing hash for utx does not reproduce a valid signature: " + v.Stage + " " + v.Err)
-			} else {
-				cf.c.Count("foreign_self_check_ok", 1)
+		return cf.judgeUtx(sp, wire), wire, cp.Sigs.V
+	}
+	var forms []chainForm
+	for _, fields := range candidates {
+		fs := chainForms(cf.c.Rng, fields)
+		for _, va := range fs {
+			if va.self() {
+				if v, _, _ := judgeForm(va); v.Stage == "accepted" || v.Stage == "identity" {
+					forms = fs
+				}
 			}
+		}
+		if forms != nil {
+			break
+		}
+	}
+	if forms == nil {
+		cf.c.Inconclusive("harness cannot reproduce the signing hash of an account->confidential transaction")
+		return
+	}
+	cf.c.Count("foreign_self_check_ok", 1)
+	for _, va := range forms {
+		if va.self() {
 			continue
 		}
+		v, wire, vv := judgeForm(va)
 		cf.c.Count("foreign_chain_forms", 1)
 		if v.Stage == "accepted" {
 			viol(cf.c, "chain-param/"+va.class(), fmt.Sprintf("utx account->confidential: a signature the key holder %x made over these fields with hash suffix '%s' and %s is accepted on this chain (parameter %s) and charges the signer", sp.Sender, va.Suffix, va.VForm, types.SignParam),
-				map[string]string{"kind": "utx-ain", "wire": hexShort(wire), "v": cp.Sigs.V.String()})
+				map[string]string{"kind": "utx-ain", "wire": hexShort(wire), "v": fmt.Sprint(vv)})
 		} else {
 			cf.c.Count("foreign_chain_rejected_or_other_sender", 1)
 		}
